@@ -5,4 +5,4 @@ From Verif Require Import Spend SpendWpkh ExecTrace Ast TypeCheck InterpModel.
 Extraction Language OCaml.
 Extraction "model_interp.ml" verify_spend verify_spend_ext parse_script exec exec_tr checks accepts_tr
   with_sv serialize pushonly_stack p2pkh_script spk_is_p2wpkh spk_is_p2sh spk_is_p2wsh spk_is_p2tr
-  num_encode type_of elem_of astack_of_items interp interp_pk interp_rec.
+  num_encode type_of elem_of astack_of_items interp interp_pk interp_rec rel_norm.
